@@ -67,11 +67,13 @@ SIGNAL_KINDS = ["noise", "noise", "noise", "zeros", "impulse", "const", "sine", 
 
 def signal_specs(n_strategy):
     return st.builds(
-        lambda n, kind, seed, scale: {"n": n, "kind": kind, "seed": seed, "scale": scale},
+        lambda n, kind, seed, scale, layout: {"n": n, "kind": kind, "seed": seed, "scale": scale, "layout": layout},
         n_strategy,
         st.sampled_from(SIGNAL_KINDS),
         st.integers(0, 2 ** 32 - 1),
         st.sampled_from([1.0, 1.0, 100.0, 1e-3, 3e4]),
+        # memory layout of the array handed to the code under test (same values)
+        st.sampled_from(["contig"] * 5 + ["strided", "reversed"]),
     )
 
 
@@ -101,7 +103,15 @@ def make_signal(spec, dtype=np.float64, n=None):
             x[int(rng.integers(0, n)) :] = scale
     else:
         raise core.HarnessError("unknown signal kind %r" % kind)
-    return np.ascontiguousarray(x.astype(dtype))
+    x = np.ascontiguousarray(x.astype(dtype))
+    layout = spec.get("layout", "contig")
+    if layout == "strided":
+        big = np.full(2 * n + 1, 7.5, dtype=dtype)
+        big[::2][:n] = x
+        x = big[::2][:n]
+    elif layout == "reversed":
+        x = np.ascontiguousarray(x[::-1])[::-1]
+    return x
 
 
 def compositions(n, cuts):
